@@ -141,6 +141,10 @@ def check(ctx, rep):
     rep.rule("R12a", "calls that may raise FileNotFound/OSError inside a per-entry loop are caught inside the loop body and the loop continues", floor=3)
     rep.rule("R12c", "every open() for reading on a name from the content tree is preceded by regular-file evidence (isfile() of the path, or S_ISREG of the stat result for the handler's own selector)", floor=6)
     rep.rule("R12b", "the stat before handler selection is absorbed; no handler test subscripts a missing stat result", floor=8)
+    rep.rule("R12f", "the file-system view answers isfile() only for regular files, isdir() only for directories and exists() for whatever "
+             "is there; nothing escapes for a missing object: each predicate is evaluated by the walker for every kind of object "
+             "(regular file, directory, FIFO, socket, character and block device, missing)", floor=1)
+    vfs_predicate_obligations(ctx, rep, "R12f")
     dirbase = ctx.cls("handlers.dir.DirHandler")
     if dirbase is None:
         rep.fail("R12a", "DirHandler", detail="directory handler not found")
@@ -503,3 +507,74 @@ def regular_file_obligations(ctx, rep, rule="R12c"):
             owner = f"{C.name}:" if C is not m.cls and m.cls is not None else ""
             rep.add(rule, f"{owner}{m.qualname}: {norm(call)[:50]}", not problems, ctx.where(m, call), "; ".join(problems),
                     key=f"{rule}|{owner}{m.qualname}|{ptxt0}")
+
+
+# ---------------------------------------------------------------------------------------------- R12f
+def vfs_predicate_obligations(ctx, rep, rule="R12f"):
+    """VFS_Real.isfile / isdir / exists, evaluated with an operating system that knows one object of a given kind.
+    The guards of R12c (`isfile()` before open) rely on the answers: a FIFO or socket that passes for a file blocks or
+    fails the listing that opens it."""
+    import os as _os
+    import stat as _stat
+
+    from ..paths import AVal, PathLimit
+
+    prog = ctx.prog
+    real = ctx.cls("handlers.base.VFS_Real")
+    if real is None:
+        rep.fail(rule, "VFS_Real", detail="file-system view not found")
+        return
+    kinds = [("a regular file", _stat.S_IFREG | 0o644), ("a directory", _stat.S_IFDIR | 0o755), ("a FIFO", _stat.S_IFIFO | 0o644),
+             ("a socket", _stat.S_IFSOCK | 0o755), ("a character device", _stat.S_IFCHR | 0o666), ("a block device", _stat.S_IFBLK | 0o660),
+             ("nothing", None)]
+    want = {"isfile": lambda m: m is not None and _stat.S_ISREG(m), "isdir": lambda m: m is not None and _stat.S_ISDIR(m),
+            "exists": lambda m: m is not None}
+    for pred in ("isfile", "isdir", "exists"):
+        m_ = prog.resolve_method(real, pred)
+        if m_ is None:
+            rep.fail(rule, f"VFS_Real.{pred}", detail="predicate not found")
+            continue
+        rep.analysed(m_.qualname)
+        problems, n = [], 0
+        for label, mode in kinds:
+            def cv(call, target, st, _mode=mode):
+                name = target.name if target.kind == "ext" else None
+                if name in ("os.path.isfile", "os.path.isdir", "os.path.exists", "os.path.lexists", "os.path.islink"):
+                    if _mode is None:
+                        return Const(False)
+                    return Const({"isfile": _stat.S_ISREG(_mode), "isdir": _stat.S_ISDIR(_mode), "exists": True, "lexists": True,
+                                  "islink": False}[name.split(".")[-1]])
+                if name in ("os.stat", "os.lstat"):
+                    if _mode is None:
+                        return AVal("raise", "FileNotFoundError")
+                    return Const(_os.stat_result((_mode, 7, 1, 1, 0, 0, 5, 0, 0, 0)))
+                if name in ("os.fsencode", "os.fsdecode", "os.path.join", "os.path.normpath", "os.path.abspath") or \
+                        (isinstance(call.func, ast.Attribute) and call.func.attr == "getfspath"):
+                    return Const("<the path>")
+                return None
+
+            w = Walker(prog, ctx.resolver, call_value=cv, exact_loops=True, unroll=4, max_paths=5000,
+                       inline=lambda fn, t, d: d < 5 and (t.bound_cls is not None or fn.module is real.module))
+            env = {p_: Const("/some/name") for p_ in m_.params[1:2]}
+            try:
+                outs = set()
+                for p in w.run(m_, real, env=env):
+                    if p.kind == "raise":
+                        outs.add("raises " + str(p.value))
+                    elif p.kind == "return" and p.value is not None and truth(p.value) is not None and p.value.kind == "const":
+                        outs.add(bool(p.value.value))
+                    elif p.kind == "fall":
+                        outs.add(False)
+                    else:
+                        outs.add("?")
+            except (PathLimit, RecursionError):
+                outs = {"?"}
+            if "?" in outs or len(outs) != 1:
+                continue
+            n += 1
+            got = next(iter(outs))
+            if got is not bool(want[pred](mode)):
+                problems.append(f"{pred}() of {label} " + (got if isinstance(got, str) else f"is {got}"))
+        rep.add(rule, f"{m_.qualname}: answers by kind of object [{n} of {len(kinds)} kinds evaluated]", not problems and n >= 4, ctx.where(m_),
+                "; ".join(problems[:3]) if problems else ("" if n >= 4 else f"the walker could follow the predicate for {n} kinds only"),
+                key=f"{rule}|{pred}", nontrivial=n >= 4)
